@@ -29,11 +29,18 @@ def check(ctx):
     _ix.check_position_map_keys(ctx, [f for f in ctx.prog.all_functions() if f.module.name.startswith(('adsg_core.optimization.graph_processor', 'adsg_core.optimization.hierarchy'))],
                                 required=[f'{GP}.all_des_var_idx_map'])
     ctx.floor('A21i', 2, 'position maps keyed by objects (design variables, choice nodes)')
+    # the values an instance carries stay the ones its corrected vector reports: value containers are not shared
+    # between the instance and the graphs later decodes write to
+    from ..rules import shared as _sh
+    _sh.check_constructor_store(ctx)
+    ctx.floor('A11s', 2, 'value containers of a graph never shared between instances')
 
 
 from ..selftest import V  # noqa: E402
 
 VARIANTS = [
+    V('value-dict-shared-between-instances', 'graph/adsg.py',
+      [("(_des_var_values or {}).copy()", "(_des_var_values if _des_var_values is not None else {})")], key='A11s'),
     V('desvar-compared-by-value', 'optimization/dv_output_defs.py',
       [("    def __str__(self):\n        if self.is_discrete:\n            return f'DV: ", "    def __hash__(self):\n        return hash(self.name)\n\n    def __eq__(self, other):\n        return isinstance(other, DesVar) and self.name == other.name\n\n    def __str__(self):\n        if self.is_discrete:\n            return f'DV: ")], key='A21i'),
     V('decode-echoes-selection-input', 'optimization/graph_processor.py',
